@@ -261,7 +261,7 @@ def long_sequences(ctx):
     wd = tlc.workdir_for("c13trace")
     back = {real(t): t for t in list(T_NAMES) + list(T_NAMES.values()) + T_VALUES}
     rnd = random.Random(77 + ctx.seed)
-    n_tr, n_ops = (150, 60) if ctx.tier == "quick" else (1500, 200)
+    n_tr, n_ops = (150, 60) if ctx.tier == "quick" else (600, 100)
     bad = {t for t in list(T_NAMES) + T_VALUES if any(x in t for x in ("{CR}", "{LF}", "{NUL}"))}
 
     def project(h):
